@@ -471,7 +471,17 @@ def _it_next(ex, c):
 
 @summary("<Vec as IntoIterator>::into_iter", "<* as IntoIterator>::into_iter")
 def _into_iter(ex, c):
+    if c.path.startswith("<&") and isinstance(c.args[0], Ref):
+        # (&Vec<T>).into_iter() yields references to the elements
+        base = c.args[0]
+        while isinstance(ex.load(base), Ref):
+            base = ex.load(base)
+        seq = ex.load(base)
+        if isinstance(seq, Seq):
+            return Opaque("Iter", items=[Ref(base.cell, base.path + (("i", i),)) for i in range(len(seq.items))])
     v = deref(ex, c.args[0])
+    if isinstance(v, Adt) and base_type_name(v.ty) in ("Range", "RangeInclusive"):
+        return v
     if isinstance(v, Seq):
         return Opaque("Iter", items=list(v.items))
     if isinstance(v, Opaque) and v.kind == "Iter":
@@ -776,3 +786,146 @@ def _hm_get(ex, c):
         if ex.branch(r.t):
             return some(Ref(cell))
     return NONE()
+
+
+# ------------------------------------------------------------------ ranges, indexing, zips
+@summary("<Range as Iterator>::next")
+def _range_next(ex, c):
+    r = c.args[0]
+    rng = deref(ex, r)
+    start, end = rng.fields[0], rng.fields[1]
+    if ex.branch(z3.ULT(start.t, end.t)):
+        base = r
+        while isinstance(ex.load(base), Ref):
+            base = ex.load(base)
+        ex.store(Ref(base.cell, base.path + (0,)), BV(start.t + 1, start.signed))
+        return some(start)
+    return NONE()
+
+
+def concrete_index(ex, idx, n):
+    v = z3.simplify(idx.t)
+    if z3.is_bv_value(v):
+        return v.as_long()
+    k = ex.choose([idx.t == i for i in range(n)] + [z3.UGE(idx.t, n)])
+    return k
+
+
+@summary("<Vec as Index>::index", "<Vec as IndexMut>::index_mut", "core::slice::index", "<[T] as Index>::index")
+def _vec_index(ex, c):
+    base = c.args[0]
+    while isinstance(base, Ref) and isinstance(ex.load(base), Ref):
+        base = ex.load(base)
+    seq = ex.load(base)
+    idx = c.args[1]
+    if isinstance(idx, Adt) and base_type_name(idx.ty) == "RangeFrom":
+        st = z3.simplify(idx.fields[0].t)
+        if not z3.is_bv_value(st):
+            raise Unsupported("symbolic range start")
+        if st.as_long() > len(seq.items):
+            raise Panic("range start out of bounds")
+        return Ref(Cell(Seq(seq.items[st.as_long():], "slice")))     # read-only view sharing the element objects
+    if isinstance(idx, BV):
+        k = concrete_index(ex, idx, len(seq.items))
+        if k >= len(seq.items):
+            raise Panic("index out of bounds")
+        return Ref(base.cell, base.path + (("i", k),))
+    raise Unsupported(f"index with {idx!r}")
+
+
+@summary("<* as Iterator>::zip")
+def _it_zip(ex, c):
+    a, b = c.args
+    bi = b.items if isinstance(b, Opaque) else deref(ex, b).items
+    return Opaque("Iter", items=[Tup([x, y]) for x, y in zip(a.items, bi)])
+
+
+@summary("<* as Iterator>::all")
+def _it_all(ex, c):
+    it = deref(ex, c.args[0])
+    f = c.args[1]
+    for x in list(it.items):
+        r = ex.call_callable(f, [x])
+        if not ex.branch(r.t):
+            return Bool(False)
+    return Bool(True)
+
+
+@summary("<* as Iterator>::any")
+def _it_any(ex, c):
+    it = deref(ex, c.args[0])
+    f = c.args[1]
+    for x in list(it.items):
+        r = ex.call_callable(f, [x])
+        if ex.branch(r.t):
+            return Bool(True)
+    return Bool(False)
+
+
+def lower8(t):
+    return z3.If(z3.And(z3.UGE(t, 65), z3.ULE(t, 90)), t + 32, t)
+
+
+@summary("core::slice::ascii::eq_ignore_ascii_case")
+def _eq_ci(ex, c):
+    a, b = deref(ex, c.args[0]), deref(ex, c.args[1])
+    if len(a.items) != len(b.items):
+        return Bool(False)
+    return Bool(z3.And([lower8(x.t) == lower8(y.t) for x, y in zip(a.items, b.items)]) if a.items else z3.BoolVal(True))
+
+
+def bytes_of(label):
+    return [b.t for b in label.fields[0].items]
+
+
+def seq_cmp_terms(a, b):
+    """lexicographic order of two label vectors -> (lt, eq) z3 terms (derived Ord: Vec<Label> of Vec<u8>)"""
+    def cmp_bytes(x, y):
+        lt, eq = z3.BoolVal(False), z3.BoolVal(True)
+        for p, q in zip(x, y):
+            lt = z3.Or(lt, z3.And(eq, z3.ULT(p, q)))
+            eq = z3.And(eq, p == q)
+        if len(x) < len(y):
+            lt = z3.Or(lt, eq)
+            eq = z3.BoolVal(False)
+        elif len(x) > len(y):
+            eq = z3.BoolVal(False)
+        return lt, eq
+    lt, eq = z3.BoolVal(False), z3.BoolVal(True)
+    for la, lb in zip(a, b):
+        l2, e2 = cmp_bytes(bytes_of(la), bytes_of(lb))
+        lt = z3.Or(lt, z3.And(eq, l2))
+        eq = z3.And(eq, e2)
+    if len(a) < len(b):
+        lt = z3.Or(lt, eq)
+        eq = z3.BoolVal(False)
+    elif len(a) > len(b):
+        eq = z3.BoolVal(False)
+    return lt, eq
+
+
+@summary("<Vec as Ord>::cmp")
+def _vec_cmp(ex, c):
+    a, b = deref(ex, c.args[0]), deref(ex, c.args[1])
+    lt, eq = seq_cmp_terms(a.items, b.items)
+    k = ex.choose([lt, eq, z3.And(z3.Not(lt), z3.Not(eq))])
+    return Adt("Ordering", ["Less", "Equal", "Greater"][k], [])
+
+
+@summary("<Ordering as PartialEq>::eq")
+def _ord_eq(ex, c):
+    a, b = deref(ex, c.args[0]), deref(ex, c.args[1])
+    return Bool(a.variant == b.variant)
+
+
+@summary("<Option as PartialEq>::eq")
+def _opt_eq(ex, c):
+    a, b = deref(ex, c.args[0]), deref(ex, c.args[1])
+    if a.variant != b.variant:
+        return Bool(False)
+    if a.variant == "None":
+        return Bool(True)
+    x, y = a.fields[0], b.fields[0]
+    if isinstance(x, BV) and isinstance(y, BV):
+        return Bool(x.t == y.t)
+    raise Unsupported("Option eq on non-integers")
